@@ -3,6 +3,7 @@ import WhatIs.Model.Json
 import WhatIs.Lemmas.Jwt
 import WhatIs.Lemmas.Json
 import WhatIs.Lemmas.JwtText
+import WhatIs.Lemmas.JsonFuel
 /-
   Props/C18.lean — PROPERTY THEOREMS for C18 (JWTs are recognised structurally and their registered fields shown
   faithfully).  `json` (the behaviour of encoding/json) is universally quantified; `data`, objects, values
@@ -148,6 +149,12 @@ open WhatIs.Spec.JsonText WhatIs.Lemmas.Json in
 /-- every scalar value survives the string reader: escapes are resolved, UTF-8 is passed through octet for octet -/
 theorem json_string_readback (rs : List Nat) (hs : ∀ r ∈ rs, Scalar r) (rest : Bytes) :
     Json.string (quoted rs ++ rest) = some (encodeRunes rs, rest) := string_quoted rs hs rest
+
+/-- FUEL ADEQUACY of the string reader (the C01 "no hang" argument for JSON strings made formal): above the length of
+    the input the result does not depend on the fuel, for EVERY input — so `Json.string`, which supplies length + 1, is
+    the unbounded reader, and a `none` is always a syntax error, never exhaustion -/
+theorem json_string_fuel (f g : Nat) (b : Bytes) (hf : b.length < f) (hg : b.length < g) :
+    Json.strBody f b = Json.strBody g b := Lemmas.JsonFuel.strBody_fuel f g b hf hg
 
 open WhatIs.Spec.JsonText WhatIs.Lemmas.Json in
 /-- REGISTERED FIELD FROM THE TEXT OF THE OBJECT: a registered string-valued name written anywhere in an object (among
